@@ -44,14 +44,14 @@ Lemma isuf_intro_b ok g B : binner ok g -> hd_ok closer B -> isuf (g ++ B).
 Proof. intros Hg HB. exists ok, g, B. auto. Qed.
 
 Lemma isuf_intro g B : inner g -> hd_ok closer B -> isuf (g ++ B).
-Proof. intros Hg HB. apply (isuf_intro_b false); [apply inner_binner; exact Hg | exact HB]. Qed.
+Proof. intros Hg HB. apply (isuf_intro_b BSafe); [apply inner_binner; exact Hg | exact HB]. Qed.
 
 Lemma isuf_tail x w : isuf (x :: w) -> is_lparen x = false -> is_lbrace x = false -> closer x = false -> isuf w.
 Proof.
   intros (ok & g & B & E & Hg & HB) Hlp Hlb Hcl.
   destruct Hg as [ok|ok t r Ht Hr|ok o g c r Ho Hg Hc Hr|o flat c r Ho Hflat Hc Hr].
   - cbn [app] in E. subst B. cbn [hd_ok] in HB. congruence.
-  - cbn [app] in E. injection E as -> ->. apply (isuf_intro_b ok); assumption.
+  - cbn [app] in E. injection E as -> ->. apply (isuf_intro_b (bstep_plain ok t)); assumption.
   - cbn [app] in E. injection E as -> _. congruence.
   - cbn [app] in E. injection E as -> _. congruence.
 Qed.
@@ -118,58 +118,69 @@ Proof.
     rewrite IH by assumption. norm_len. lia.
 Qed.
 
-(* once a ")" has occurred at this depth (flag false), no brace follows at this depth *)
-Lemma bfalse_head ok r : binner ok r -> ok = false -> forall B, hd_ok closer B -> sym_at (r ++ B) 0 lbrace = false.
+(* states in which no brace group may start *)
+Definition nobrace (s : bstate) : Prop := s <> BSafe.
+(* the states after a group *)
+Definition aftergroup (s : bstate) : Prop := s = BGroup \/ s = BPoison.
+
+Lemma after_group_ag s : aftergroup (after_group s).
+Proof. destruct s; [left | left | left | right]; reflexivity. Qed.
+
+Lemma nobrace_head s r : binner s r -> nobrace s -> forall B, hd_ok closer B -> sym_at (r ++ B) 0 lbrace = false.
 Proof.
-  intros H. destruct H as [ok|ok t r Ht Hr|ok o g c r Ho Hg Hc Hr|o flat c r Ho Hflat Hc Hr]; intros Hok B HB.
+  intros H. destruct H as [s|s t r Ht Hr|s o g c r Ho Hg Hc Hr|o flat c r Ho Hflat Hc Hr]; intros Hs B HB.
   - cbn [app]. destruct B as [|b B]; [reflexivity|]. cbn [hd_ok] in HB. apply closer_inv in HB. unfold sym_at. cbn [nth_error]. apply HB.
   - apply plain_inv in Ht. unfold sym_at. cbn [app nth_error]. apply Ht.
   - unfold sym_at. cbn [app nth_error]. apply lparen_not_lbrace. exact Ho.
-  - discriminate.
+  - exfalso. apply Hs. reflexivity.
 Qed.
 
-Lemma bfalse_run ok r : binner ok r -> ok = false -> forall B, hd_ok closer B ->
+(* after a group: the run of further groups ends at a token that is not "{"; if it ends at "=>", the next token is
+   not "{" either *)
+Lemma bfalse_run s r : binner s r -> aftergroup s -> forall B, hd_ok closer B ->
   groups_len (r ++ B) 0 <= length r /\
   sym_at (r ++ B) (groups_len (r ++ B) 0) lbrace = false /\
   (sym_at (r ++ B) (groups_len (r ++ B) 0) s_arrow = true -> sym_at (r ++ B) (S (groups_len (r ++ B) 0)) lbrace = false).
 Proof.
-  induction 1 as [ok|ok t r Ht Hr IH|ok o g c r Ho Hg IHg Hc Hr IHr|o flat c r Ho Hflat Hc Hr IH]; intros Hok B HB.
+  induction 1 as [s|s t r Ht Hr IH|s o g c r Ho Hg IHg Hc Hr IHr|o flat c r Ho Hflat Hc Hr IH]; intros Hs B HB.
   - cbn [app length]. destruct B as [|b B]; [repeat split; auto; discriminate|].
     cbn [hd_ok] in HB. apply closer_inv in HB as (_ & H1 & H2 & H3 & _).
     rewrite groups_len_outside_stop by exact H2. unfold sym_at. cbn [nth_error]. repeat split; [lia | exact H1 | congruence].
-  - apply plain_inv in Ht as (H1 & _ & H3 & _). cbn [app].
+  - pose proof (plain_inv t Ht) as (H1 & _ & H3 & _). cbn [app].
     rewrite groups_len_outside_stop by exact H1. split; [lia|]. split; [unfold sym_at; cbn [nth_error]; exact H3|].
-    intros _. change (sym_at (t :: r ++ B) 1 lbrace) with (sym_at (r ++ B) 0 lbrace).
-    apply (bfalse_head ok r Hr Hok B HB).
+    unfold sym_at at 1. cbn [nth_error]. intros Ha. change (sym_at (t :: r ++ B) 1 lbrace) with (sym_at (r ++ B) 0 lbrace).
+    apply (nobrace_head _ r Hr); [|exact HB].
+    assert (Hop : is_operator t s_colon = false) by (eapply symbol_not_operator; exact Ha).
+    destruct Hs as [-> | ->]; cbn [bstep_plain]; [rewrite Hop, Ha|]; discriminate.
   - replace ((o :: g ++ c :: r) ++ B) with (o :: g ++ c :: (r ++ B)) by (norm_app; reflexivity).
     rewrite groups_len_outside_lparen by exact Ho.
-    rewrite (groups_len_binner true g Hg 1%Z) by lia.
+    rewrite (groups_len_binner BSafe g Hg 1%Z) by lia.
     rewrite groups_len_inside_rparen by (assumption || lia).
     replace (1 - 1)%Z with 0%Z by lia.
-    destruct (IHr eq_refl B HB) as (Hle & Hsym & Harr). set (e := groups_len (r ++ B) 0) in *.
+    destruct (IHr (after_group_ag s) B HB) as (Hle & Hsym & Harr). set (e := groups_len (r ++ B) 0) in *.
     replace (S (length g + S e)) with (length (o :: g ++ [c]) + e) by (norm_len; lia).
     replace (S (length (o :: g ++ [c]) + e)) with (length (o :: g ++ [c]) + S e) by lia.
     replace (o :: g ++ c :: r ++ B) with ((o :: g ++ [c]) ++ (r ++ B)) by (norm_app; reflexivity).
     rewrite !sym_at_shift. split; [norm_len; lia|]. split; assumption.
-  - discriminate.
+  - destruct Hs; discriminate.
 Qed.
 
-(* the run of groups at the head of a suffix that starts with "(" ends at a token that is not "{"; if it ends at
-   "=>", the next token is not "{" either *)
+(* a suffix that starts with "(" *)
 Lemma isuf_lparen_shape v : isuf v -> sym_at v 0 lparen = true ->
-  exists o g c r B, v = (o :: g ++ [c]) ++ (r ++ B) /\ is_lparen o = true /\ binner true g /\ is_rparen c = true /\
-                    binner false r /\ hd_ok closer B /\
+  exists o g c s r B, v = (o :: g ++ [c]) ++ (r ++ B) /\ is_lparen o = true /\ binner BSafe g /\ is_rparen c = true /\
+                    aftergroup s /\ binner s r /\ hd_ok closer B /\
                     groups_len v 0 = length (o :: g ++ [c]) + groups_len (r ++ B) 0.
 Proof.
-  intros (ok & g & B & -> & Hg & HB) Hlp.
-  destruct Hg as [ok|ok t r Ht Hr|ok o g c r Ho Hg Hc Hr|o flat c r Ho Hflat Hc Hr].
+  intros (s & g & B & -> & Hg & HB) Hlp.
+  destruct Hg as [s|s t r Ht Hr|s o g c r Ho Hg Hc Hr|o flat c r Ho Hflat Hc Hr].
   - cbn [app] in Hlp. destruct B as [|b B]; [discriminate|]. cbn [hd_ok] in HB. apply closer_inv in HB as (_ & _ & H & _).
     unfold sym_at in Hlp. cbn [nth_error] in Hlp. unfold is_lparen in H. congruence.
   - apply plain_inv in Ht as (H & _). unfold sym_at in Hlp. cbn [app nth_error] in Hlp. unfold is_lparen in H. congruence.
-  - exists o, g, c, r, B. split; [norm_app; reflexivity|]. repeat (split; [assumption|]).
+  - exists o, g, c, (after_group s), r, B. split; [norm_app; reflexivity|]. split; [exact Ho|]. split; [exact Hg|]. split; [exact Hc|].
+    split; [apply after_group_ag|]. split; [exact Hr|]. split; [exact HB|].
     replace ((o :: g ++ c :: r) ++ B) with (o :: g ++ c :: (r ++ B)) by (norm_app; reflexivity).
     rewrite groups_len_outside_lparen by exact Ho.
-    rewrite (groups_len_binner true g Hg 1%Z) by lia.
+    rewrite (groups_len_binner BSafe g Hg 1%Z) by lia.
     rewrite groups_len_inside_rparen by (assumption || lia).
     replace (1 - 1)%Z with 0%Z by lia. norm_len. lia.
   - apply lbrace_not_lparen in Ho. unfold sym_at in Hlp. cbn [app nth_error] in Hlp. unfold is_lparen in Ho. congruence.
@@ -179,8 +190,8 @@ Lemma isuf_run v : isuf v -> sym_at v 0 lparen = true ->
   sym_at v (groups_len v 0) lbrace = false /\
   (sym_at v (groups_len v 0) s_arrow = true -> sym_at v (S (groups_len v 0)) lbrace = false).
 Proof.
-  intros Hv Hlp. destruct (isuf_lparen_shape v Hv Hlp) as (o & g & c & r & B & -> & Ho & Hg & Hc & Hr & HB & ->).
-  destruct (bfalse_run false r Hr eq_refl B HB) as (_ & H1 & H2).
+  intros Hv Hlp. destruct (isuf_lparen_shape v Hv Hlp) as (o & g & c & s & r & B & -> & Ho & Hg & Hc & Hs & Hr & HB & ->).
+  destruct (bfalse_run s r Hr Hs B HB) as (_ & H1 & H2).
   replace (S (length (o :: g ++ [c]) + groups_len (r ++ B) 0))
     with (length (o :: g ++ [c]) + S (groups_len (r ++ B) 0)) by lia.
   rewrite !sym_at_shift. split; assumption.
@@ -213,14 +224,14 @@ Proof.
   - destruct Hg as [o g' c Ho Hg' Hc].
     replace ((o :: g' ++ [c]) ++ t :: rest) with (o :: g' ++ c :: t :: rest) by (norm_app; reflexivity).
     rewrite groups_len_outside_lparen by exact Ho.
-    rewrite (groups_len_binner true g' Hg' 1%Z) by lia.
+    rewrite (groups_len_binner BSafe g' Hg' 1%Z) by lia.
     rewrite groups_len_inside_rparen by (assumption || lia).
     replace (1 - 1)%Z with 0%Z by lia. rewrite groups_len_outside_stop by exact Ht.
     norm_len. lia.
   - destruct Hg as [o g' c Ho Hg' Hc].
     replace (((o :: g' ++ [c]) ++ r) ++ t :: rest) with (o :: g' ++ c :: (r ++ t :: rest)) by (norm_app; reflexivity).
     rewrite groups_len_outside_lparen by exact Ho.
-    rewrite (groups_len_binner true g' Hg' 1%Z) by lia.
+    rewrite (groups_len_binner BSafe g' Hg' 1%Z) by lia.
     rewrite groups_len_inside_rparen by (assumption || lia).
     replace (1 - 1)%Z with 0%Z by lia. rewrite IH by exact Ht.
     norm_len. lia.
@@ -903,7 +914,7 @@ Section Pieces.
     change (o :: g' ++ [c0]) with ([o] ++ g' ++ [c0]).
     apply (no_acc_app c f (g_c _ _ _ G) (g_f _ _ _ G)); [eapply symbol_no_acc; exact Ho|].
     apply (no_acc_app c f (g_c _ _ _ G) (g_f _ _ _ G)); [|eapply symbol_no_acc; exact Hc].
-    apply (binner_no_acc true); [exact Hg|]. cbn [app hd_ok]. apply rparen_closer. exact Hc.
+    apply (binner_no_acc BSafe); [exact Hg|]. cbn [app hd_ok]. apply rparen_closer. exact Hc.
   Qed.
 
   Lemma bgroups_no_acc gs B : bgroups gs -> no_acc c f gs B.
